@@ -83,6 +83,13 @@ def ref_diffs(case, obs):
             k = next(i for i, (a, b) in enumerate(zip(cnt, rcnt)) if a != b)
             d['trace-counters'] = (f'at execution {k} ({tags[k]!r}) (i, whileCounter, retryCounter) = '
                                    f'{cnt[k]!r}, expected {rcnt[k]!r}')
+        if 'final_counters' in ref and 'trace-counters' not in d:
+            # what the loops leave behind in the context when the run is over
+            have = dict((k, v) for k, v in obs['ctx'] if isinstance(k, str))
+            fin = [have.get(k, {'obj': -1}) for k in ('i', 'whileCounter', 'retryCounter')]
+            if not all(pv.pv_equal(a, b) for a, b in zip(fin, ref['final_counters'])):
+                d['trace-counters'] = (f'after the run (i, whileCounter, retryCounter) in context = {fin!r}, '
+                                       f'expected {ref["final_counters"]!r}')
         w = [e[6]['l'] for e in otrace]
         rw = [e[4] for e in ref['trace']]
         if w != rw:
